@@ -26,6 +26,7 @@ struct HNode {
   std::vector<uint8_t> bytes; std::vector<int> kids;
   cbor_item_t* impl = nullptr; int64_t ext = 0, in_edges = 0; bool alive = false;
   uint64_t reallocs = 0, inserts = 0;      // growth accounting (C12)
+  double min_growth = 1e9;                 // smallest capacity ratio of any growth step seen on this container's table
 };
 
 struct OpResult {
